@@ -29,6 +29,8 @@ Logged ==
   \/ IsEvent("end") /\ BodyEnd(Ev.p) /\ UNCHANGED pending
   \/ IsEvent("fail") /\ BodyFail(Ev.p) /\ UNCHANGED pending
   \/ IsEvent("inject") /\ Signal(Ev.p, Ev.sig) /\ UNCHANGED pending
+  \/ IsEvent("paused") /\ UNCHANGED <<vars, pending>>      \* the process is stopped before a statement (preemption by the harness)
+  \/ IsEvent("resumed") /\ UNCHANGED <<vars, pending>>
   \/ IsEvent("extsignal") /\ pending' = [pending EXCEPT ![Ev.p] = Ev.sig] /\ UNCHANGED vars
   \/ /\ IsEvent("exit") /\ pc[Ev.p] = "dead" /\ rc[Ev.p] = Ev.rc
      /\ (Ev.obs =>
